@@ -11,6 +11,7 @@
   tactic `dm_good` that walks over an elaborated `do` block, and `Good k (processPatchM o)`.
 -/
 import PatchModel.Model.Driver
+import Lean
 namespace PatchModel.Fault
 open PatchModel
 
@@ -211,7 +212,7 @@ theorem good_doOp {k} (op : FsOp) : Good k (doOp op) where
   mono := fun s h => by
     rw [run_doOp]
     simp only [h]
-    cases s.fs.apply op <;> simp [MonoAt, h]
+    cases s.fs.apply op <;> simp [MonoAt]
   sim := fun s h hc => by
     rw [run_doOp, run_doOp]
     simp only [h, wf_faultAt, wf_opCount, wf_fs]
@@ -227,7 +228,7 @@ theorem good_tryOp {k} (op : FsOp) (tol) : Good k (tryOp op tol) where
   mono := fun s h => by
     rw [run_tryOp]
     simp only [h]
-    cases s.fs.apply op <;> simp [MonoAt, h]
+    cases s.fs.apply op <;> simp [MonoAt]
   sim := fun s h hc => by
     rw [run_tryOp, run_tryOp]
     simp only [h, wf_faultAt, wf_opCount, wf_fs]
@@ -238,5 +239,269 @@ theorem good_tryOp {k} (op : FsOp) (tol) : Good k (tryOp op tol) where
     · refine .inl ?_
       have : s.opCount + 1 ≤ k := by omega
       cases s.fs.apply op <;> simp [wf, hk, this]
+
+
+/-! ## a tactic that walks over an elaborated `do` block -/
+
+theorem Good.letGen {α β k} (P : β → Prop) (v : β) (body : β → DM α) (hv : P v)
+    (h : ∀ x, P x → Good k (body x)) : Good k (body v) := h v hv
+
+open Lean Elab Tactic Meta in
+/-- goal `Good k (have x := v; b)`: a join point (`v` a function into `DM`) is generalised — first goal: `v` is good for all
+    arguments, second goal: `b` is good for every such `x`; any other value is substituted -/
+elab "dm_have" : tactic => liftMetaTactic fun g => g.withContext do
+  let tgt ← instantiateMVars (← g.getType)
+  let .app gk e := tgt | throwError "dm_have: not an application"
+  unless gk.getAppFn.isConstOf ``Good do throwError "dm_have: not a Good goal"
+  let .letE n t v b _ := e | throwError "dm_have: no let"
+  if t.isForall then
+    let k := gk.appArg!
+    let mkP (x : Expr) : MetaM Expr :=
+      forallTelescope t fun args _ => do
+        let goal ← mkAppM ``Good #[k, (mkAppN x args).headBeta]
+        mkForallFVars args goal
+    let P ← withLocalDeclD n t fun x => do mkLambdaFVars #[x] (← mkP x)
+    let hv ← mkFreshExprSyntheticOpaqueMVar (← mkP v)
+    let hTy ← withLocalDeclD n t fun x => do
+      withLocalDeclD `hjp (← mkP x) fun hx => do
+        mkForallFVars #[x, hx] (mkApp gk (b.instantiate1 x))
+    let h ← mkFreshExprSyntheticOpaqueMVar hTy
+    let pf ← mkAppOptM ``Good.letGen #[none, none, k, P, v, Expr.lam n t b .default, hv, h]
+    g.assign pf
+    return [hv.mvarId!, h.mvarId!]
+  else
+    return [← g.replaceTargetDefEq (mkApp gk (b.instantiate1 v))]
+
+open Lean Elab Tactic Meta in
+/-- close `Good k (jp a)` with a join point hypothesis -/
+elab "dm_hyp" : tactic => liftMetaTactic fun g => g.withContext do
+  for d in (← getLCtx) do
+    if d.isImplementationDetail then continue
+    let ty ← instantiateMVars d.type
+    if ty.getForallBody.getAppFn.isConstOf ``Good then
+      if let some gs ← observing? (withReducible (g.apply d.toExpr)) then
+        return gs
+  throwError "dm_hyp: no hypothesis applies"
+
+/-- the lemma data base: `Good k (f …)` for the functions of the model (extended by `macro_rules`) -/
+syntax "dm_prim" : tactic
+macro_rules | `(tactic| dm_prim) => `(tactic| with_reducible exact good_doOp _)
+macro_rules | `(tactic| dm_prim) => `(tactic| with_reducible exact good_tryOp _ _)
+
+macro "dm_step" : tactic => `(tactic| first
+  | dm_have
+  | dm_hyp
+  | dm_prim
+  | with_reducible exact Good.pure _
+  | with_reducible exact Good.throw _
+  | with_reducible exact Good.liftE _
+  | (with_reducible refine Good.get_bind ?_ (fun _ => ?_)); (· intros; rfl)
+  | (with_reducible refine Good.modify ?_ ?_ ?_) <;> (intros; rfl)
+  | with_reducible refine Good.bind ?_ (fun _ => ?_)
+  | with_reducible refine Good.map _ ?_
+  | with_reducible refine Good.ite ?_ ?_
+  | with_reducible refine Good.forIn _ _ _ (fun _ _ => ?_)
+  | intro _
+  | split)
+
+macro "dm_good" : tactic => `(tactic| repeat' dm_step)
+
+/-! ## the functions of the driver -/
+
+theorem good_emit {k} (e) : Good k (emit e) := by unfold emit; dm_good
+macro_rules | `(tactic| dm_prim) => `(tactic| with_reducible exact good_emit _)
+
+theorem good_failNow {k} : Good k failNow := by unfold failNow; dm_good
+macro_rules | `(tactic| dm_prim) => `(tactic| with_reducible exact good_failNow)
+
+theorem good_fsExists {k} (p) : Good k (fsExists p) := by unfold fsExists; dm_good
+macro_rules | `(tactic| dm_prim) => `(tactic| with_reducible exact good_fsExists _)
+
+theorem good_opCreat {k} (p) : Good k (opCreat p) := by unfold opCreat; dm_good
+macro_rules | `(tactic| dm_prim) => `(tactic| with_reducible exact good_opCreat _)
+
+theorem good_ensureParentDirs {k} (p) : Good k (ensureParentDirs p) := by unfold ensureParentDirs; dm_good
+macro_rules | `(tactic| dm_prim) => `(tactic| with_reducible exact good_ensureParentDirs _)
+
+theorem good_removeFileAndEmptyParents {k} (p) : Good k (removeFileAndEmptyParents p) := by
+  unfold removeFileAndEmptyParents; dm_good
+macro_rules | `(tactic| dm_prim) => `(tactic| with_reducible exact good_removeFileAndEmptyParents _)
+
+
+theorem good_fsIsRegular {k} (p) : Good k (fsIsRegular p) := by unfold fsIsRegular; dm_good
+macro_rules | `(tactic| dm_prim) => `(tactic| with_reducible exact good_fsIsRegular _)
+
+theorem good_fsGetPerms {k} (p) : Good k (fsGetPerms p) := by unfold fsGetPerms; dm_good
+macro_rules | `(tactic| dm_prim) => `(tactic| with_reducible exact good_fsGetPerms _)
+
+theorem good_opWrite {k} (p b) : Good k (opWrite p b) := by unfold opWrite; dm_good
+macro_rules | `(tactic| dm_prim) => `(tactic| with_reducible exact good_opWrite _ _)
+
+theorem good_opChmod {k} (p m) : Good k (opChmod p m) := by unfold opChmod; dm_good
+macro_rules | `(tactic| dm_prim) => `(tactic| with_reducible exact good_opChmod _ _)
+
+theorem good_opRename {k} (a b) : Good k (opRename a b) := by unfold opRename; dm_good
+macro_rules | `(tactic| dm_prim) => `(tactic| with_reducible exact good_opRename _ _)
+
+theorem good_createTemp {k} : Good k createTemp := by unfold createTemp; dm_good
+macro_rules | `(tactic| dm_prim) => `(tactic| with_reducible exact good_createTemp)
+
+theorem good_writeFile {k} (p c) : Good k (writeFile p c) := by unfold writeFile; dm_good
+macro_rules | `(tactic| dm_prim) => `(tactic| with_reducible exact good_writeFile _ _)
+
+theorem good_fixPermissionsIfNeeded {k} (o f) : Good k (fixPermissionsIfNeeded o f) := by
+  unfold fixPermissionsIfNeeded; dm_good
+macro_rules | `(tactic| dm_prim) => `(tactic| with_reducible exact good_fixPermissionsIfNeeded _ _)
+
+theorem good_permissionCallback {k} (a b c) : Good k (permissionCallback a b c) := by
+  unfold permissionCallback; dm_good
+macro_rules | `(tactic| dm_prim) => `(tactic| with_reducible exact good_permissionCallback _ _ _)
+
+theorem good_refuseToPatch {k} (a b c) : Good k (refuseToPatch a b c) := by
+  unfold refuseToPatch; dm_good
+macro_rules | `(tactic| dm_prim) => `(tactic| with_reducible exact good_refuseToPatch _ _ _)
+
+theorem good_guessFilepath {k} (a b) : Good k (guessFilepath a b) := by
+  unfold guessFilepath; dm_good
+macro_rules | `(tactic| dm_prim) => `(tactic| with_reducible exact good_guessFilepath _ _)
+
+
+/-- `Good` only depends on the runs -/
+theorem Good.congr {α k} {m m' : DM α} (h : ∀ s, run m s = run m' s) (hm : Good k m') : Good k m where
+  mono := fun s hs => by rw [h]; exact hm.mono s hs
+  sim := fun s hs hc => by rw [h, h]; exact hm.sim s hs hc
+
+theorem run_readTty (s) : run readTty s =
+    match s.tty with
+    | none => (.error .systemError, s)
+    | some [] => (.ok [], s)
+    | some (a :: rest) => (.ok a, { s with tty := some rest }) := by
+  unfold readTty
+  simp only [run_bind, run_get]
+  split <;> simp [run_throw, run_pure, run_map, run_set, *]
+
+theorem good_readTty {k} : Good k readTty where
+  mono := fun s h => by
+    rw [run_readTty]
+    split <;> simp [MonoAt, h]
+  sim := fun s h hc => by
+    rw [run_readTty, run_readTty]
+    refine .inl ?_
+    show _ ∧ _ ∧ _
+    have : (wf k s).tty = s.tty := rfl
+    rw [this]
+    split <;> simp [hc] <;> rfl
+macro_rules | `(tactic| dm_prim) => `(tactic| with_reducible exact good_readTty)
+
+theorem good_checkWithUser {k} (q d) : Good k (checkWithUser q d) := by unfold checkWithUser; dm_good
+macro_rules | `(tactic| dm_prim) => `(tactic| with_reducible exact good_checkWithUser _ _)
+
+theorem good_promptForFilepath {k} (fuel) : Good k (promptForFilepath fuel) := by
+  induction fuel with
+  | zero => unfold promptForFilepath; dm_good
+  | succ n ih => unfold promptForFilepath; dm_good
+macro_rules | `(tactic| dm_prim) => `(tactic| with_reducible exact good_promptForFilepath _)
+
+
+/-- `makeBackupFor` with its `set { s with … }` written as a `modify` -/
+def makeBackupFor' (o : Options) (p : Bytes) : DM Unit := do
+  let s ← get
+  if !s.backedUp.contains (backupName o p) then
+    modify fun s => { s with backedUp := s.backedUp ++ [backupName o p] }
+    if (← fsExists p) then opRename p (backupName o p) else opCreat (backupName o p)
+
+theorem good_makeBackupFor {k} (o p) : Good k (makeBackupFor o p) := by
+  refine Good.congr (m' := makeBackupFor' o p) (fun s => ?_) (by unfold makeBackupFor'; dm_good)
+  unfold makeBackupFor makeBackupFor'
+  simp only [run_bind, run_get]
+  split
+  · simp only [run_bind, run_set, run_modify]
+  · rfl
+macro_rules | `(tactic| dm_prim) => `(tactic| with_reducible exact good_makeBackupFor _ _)
+
+theorem good_writePatchedResult {k} (a b c d) : Good k (writePatchedResult a b c d) := by
+  unfold writePatchedResult; dm_good
+macro_rules | `(tactic| dm_prim) => `(tactic| with_reducible exact good_writePatchedResult _ _ _ _)
+
+theorem good_finalizeDeferred {k} : Good k finalizeDeferred := by
+  unfold finalizeDeferred; dm_good
+macro_rules | `(tactic| dm_prim) => `(tactic| with_reducible exact good_finalizeDeferred)
+
+theorem good_parseBodyM {k} (a b) : Good k (parseBodyM a b) := by
+  unfold parseBodyM; dm_good
+macro_rules | `(tactic| dm_prim) => `(tactic| with_reducible exact good_parseBodyM _ _)
+
+
+theorem good_processSection {k} (o f) : Good k (processSection o f) := by
+  unfold processSection; dm_good
+macro_rules | `(tactic| dm_prim) => `(tactic| with_reducible exact good_processSection _ _)
+
+theorem good_sectionLoop {k} (o f fuel) : Good k (sectionLoop o f fuel) := by
+  induction fuel with
+  | zero => unfold sectionLoop; dm_good
+  | succ n ih => unfold sectionLoop; dm_good
+macro_rules | `(tactic| dm_prim) => `(tactic| with_reducible exact good_sectionLoop _ _ _)
+
+theorem good_chdir {k β} (d : Bytes) (jp : Unit → DM β) (hjp : ∀ x, Good k (jp x)) :
+    Good k (do
+      let s ← get
+      match s.fs.stat d with
+      | some (.dir _) => do let r ← set { s with cwd := d }; jp r
+      | _ => do let r ← throw Exn.systemError; jp r) := by
+  refine Good.congr (m' := do
+      let s ← get
+      match s.fs.stat d with
+      | some (.dir _) => do let r ← modify fun s => { s with cwd := d }; jp r
+      | _ => do let r ← throw Exn.systemError; jp r) (fun s => ?_) (by dm_good)
+  simp only [run_bind, run_get]
+  split <;> simp only [run_bind, run_set, run_modify]
+
+theorem good_processPatchM {k} (o) : Good k (processPatchM o) := by
+  unfold processPatchM
+  dm_have
+  · dm_good
+  · intro jp hjp
+    refine Good.ite ?_ (hjp _)
+    exact good_chdir _ _ hjp
+
+/-! ## `runPatch` -/
+
+theorem runPatch_eq (o : Options) (s : DState) (hh : (o.showHelp || o.showVersion) = false) :
+    runPatch o s = match run (processPatchM o) s with
+      | (.ok (), s') => (if s'.hadFailure then 1 else 0, s')
+      | (.error _, s') => (2, s') := by
+  simp only [runPatch, hh]; rfl
+
+theorem runPatch_help (o : Options) (s : DState) (hh : (o.showHelp || o.showVersion) = true) :
+    runPatch o s = (0, s) := by
+  simp only [runPatch, hh]; rfl
+
+/-- the fault-free run and the run with the fault scheduled at `k`, at the level of `runPatch` -/
+theorem runPatch_out (o : Options) (s : DState) (k : Nat) (hs : s.faultAt = none) (hc : s.opCount ≤ k) :
+    ((runPatch o (wf k s)).1 = (runPatch o s).1 ∧ (runPatch o (wf k s)).2 = wf k (runPatch o s).2 ∧
+      (runPatch o s).2.opCount ≤ k) ∨
+    (k < (runPatch o s).2.opCount ∧ (runPatch o (wf k s)).2.opCount = k + 1 ∧ (runPatch o (wf k s)).1 = 2 ∧
+      ∃ t, (runPatch o s).2.trace = (runPatch o (wf k s)).2.trace ++ t) := by
+  cases hh : (o.showHelp || o.showVersion)
+  · rw [runPatch_eq o s hh, runPatch_eq o (wf k s) hh]
+    have h := (good_processPatchM (k := k) o).sim s hs hc
+    rcases hp : run (processPatchM o) s with ⟨r, s'⟩
+    rcases hq : run (processPatchM o) (wf k s) with ⟨r2, s2⟩
+    rw [hp, hq] at h
+    rcases h with ⟨e1, e2, e3⟩ | ⟨e1, e2, _, ⟨e, e4⟩, t, e5⟩
+    · simp only at e1 e2 e3
+      subst e1 e2
+      refine .inl ?_
+      cases r2 with
+      | error e => exact ⟨rfl, rfl, e3⟩
+      | ok u => exact ⟨rfl, rfl, e3⟩
+    · simp only at e1 e2 e4 e5
+      subst e4
+      refine .inr ?_
+      cases r with
+      | error e => exact ⟨e1, e2, rfl, t, e5⟩
+      | ok u => exact ⟨e1, e2, rfl, t, e5⟩
+  · rw [runPatch_help o s hh, runPatch_help o (wf k s) hh]
+    exact .inl ⟨rfl, rfl, hc⟩
 
 end PatchModel.Fault
